@@ -19,12 +19,16 @@ SLICE = 16
 
 
 def dense_plan():
+    """The +-64 window is laid around k*B three times: measured in bytes of the argument itself, of the
+    command (argument + call pickling) and of the pickled log entry (command + index + term) - the
+    chunking code has boundaries in each of these units."""
     plan = []
     for b in BATCHES:
         for k in (1, 2, 3, 4):
-            offs = list(range(-64, 65))
-            for i in range(0, len(offs), SLICE):
-                plan.append(('dense', b, k, offs[i:i + SLICE]))
+            for unit in ('arg', 'cmd', 'entry'):
+                offs = list(range(-64, 65))
+                for i in range(0, len(offs), SLICE):
+                    plan.append(('dense', b, k, offs[i:i + SLICE], unit))
     return plan
 
 
@@ -51,10 +55,12 @@ def run_case(prop, tier, seed, i):
     from . import ext_monitors as X
     rs = (h32('c11', seed) % 100000) * 100000 + i
     r = random.Random(rs)
+    unit = None
     if i < len(DENSE):
-        mode, batch, k, offs = DENSE[i]
-        sizes = [k * batch + o for o in offs if k * batch + o >= 0]
-        payloads = [(s, ((b'\xab' * s) if r.random() < 0.5 else ('y' * s),), {}) for s in sizes]
+        mode, batch, k, offs, unit = DENSE[i]
+        ovh = overhead(unit)
+        sizes = [k * batch + o - ovh for o in offs if k * batch + o - ovh >= 0]
+        payloads = [(s, (b'\xab' * s,), {}) for s in sizes]
     else:
         mode = 'random'
         batch = r.choice(BATCHES)
@@ -124,7 +130,7 @@ def run_case(prop, tier, seed, i):
         res['obs']['file_journal_cases'] += 1
     res['obs'] = dict(res['obs'])
     res['escaped'] = dict(sim.escaped)
-    res['nontrivial_fps'] = [h32(mode, batch, cfg['use_batch'], cfg['journal'], i)] if sim.mon.obs.get('c11_applies') else []
+    res['nontrivial_fps'] = [h32(mode, unit, batch, cfg['use_batch'], cfg['journal'], i)] if sim.mon.obs.get('c11_applies') else []
     if sim.mon.obs.get('chunked_entry_msgs'):
         res['sit']['chunked_path'] = 1
     if viol is not None:
@@ -136,9 +142,25 @@ def run_case(prop, tier, seed, i):
         rec['replay'] = save_replay(seed, i, rec, cfg, [(s, _short(a), sorted(k)) for s, a, k in payloads], sim)
         res['violations'].append(rec)
     if i % 40 == 0:
-        res['sample'] = {'mode': mode, 'batch': batch, 'cfg': {k: cfg[k] for k in ('n', 'use_batch', 'journal')},
+        res['sample'] = {'mode': mode, 'unit': unit, 'batch': batch, 'cfg': {k: cfg[k] for k in ('n', 'use_batch', 'journal')},
                          'sizes': [s for s, _, _ in payloads][:16]}
     return res
+
+
+_OVH = {}
+
+
+def overhead(unit):
+    """Bytes the library adds to a bytes argument of KV.big(uid, payload): in the command and in the pickled entry."""
+    if unit == 'arg':
+        return 0
+    if not _OVH:
+        import pysyncobj.pickle as PK
+        payload = b'\xab' * 1000
+        cmd = b'\x00' + PK.dumps((4, (100123, payload)))
+        _OVH['cmd'] = len(cmd) - 1000
+        _OVH['entry'] = len(PK.dumps((cmd, 25, 1))) - 1000
+    return _OVH[unit]
 
 
 def _approx(args):
